@@ -378,6 +378,35 @@ fn tiny_tables(rng: &mut Rng) -> Vec<(Vec<u8>, Cfg)> {
     out
 }
 
+/// genuine compress-only archives (one small block; two blocks at scaled constants) whose sizes-table fields
+/// are replaced by size-like values: a little more than the truth, every size boundary of the code ±, every
+/// size-like literal of the tree under test — the block then holds less (or more) data than announced, and
+/// opening the archive already seeks to its announced end
+fn sizes_field_cases(rng: &mut Rng) -> Vec<(Vec<u8>, Cfg, String)> {
+    let cfg = Cfg { layers: L_COMP, level: 5, recipients: vec![], reader: 0 };
+    let n0 = if CONSTS.scaled { CONSTS.block + CONSTS.block / 2 } else { 3000 };
+    let b = build(&cfg, &[Op::Add { name: "a".into(), size: n0 as u64, src: rng.bytes(n0, 2) }, Op::Finalize]);
+    let mut vals: Vec<u64> = vec![CONSTS.cbuf as u64, 65536, CONSTS.chunk as u64, CONSTS.block as u64, CONSTS.rcache as u64, 1 << 20, 1 << 24, (1 << 31) - 1, 1 << 31];
+    vals.extend(crate::gens::extra_bounds().iter().map(|x| *x as u64));
+    let mut all: Vec<u64> = vec![];
+    for v in vals { for d in [0i64, 5, -3] { all.push((v as i64 + d).max(0) as u64); } }
+    all.sort(); all.dedup();
+    let n = b.bytes.len();
+    let mut out = vec![];
+    // the table ends the archive: … [u32 size]* [u32 last_block_size] [u32 table length]
+    let truth = u32::from_le_bytes(b.bytes[n - 8..n - 4].try_into().unwrap()) as u64;
+    for v in all.iter().copied().chain([truth + 100, truth + 1, truth.saturating_sub(1)]) {
+        if v > u32::MAX as u64 { continue; }
+        let mut x = b.bytes.clone();
+        x[n - 8..n - 4].copy_from_slice(&(v as u32).to_le_bytes());
+        out.push((x, cfg.clone(), format!("corpus:last-block-size:{v}")));
+        let mut y = b.bytes.clone();
+        y[n - 12..n - 8].copy_from_slice(&(v as u32).to_le_bytes());
+        out.push((y, cfg.clone(), format!("corpus:compressed-size:{v}")));
+    }
+    out
+}
+
 /// compress-only archives whose sizes table is LONG (arithmetic on block counts: 2^32 / block size
 /// entries and around it), every entry small
 fn long_tables(rng: &mut Rng) -> Vec<(Vec<u8>, Cfg, String)> {
@@ -452,6 +481,7 @@ pub fn run(ctx: &Ctx) -> Report {
         cases.push((b, c, "corpus:huge-sizes-entry".into()));
         for (b, c) in tiny_tables(&mut rng) { cases.push((b, c, "corpus:tiny-sizes-table".into())); }
         cases.extend(long_tables(&mut rng));
+        cases.extend(sizes_field_cases(&mut rng));
         for n in [3usize, 2000, 60_000] { cases.push((many_empty_blocks(n), Cfg::plain(), format!("corpus:empty-blocks:{n}"))); }
         {
             // D7: footer length larger than the archive; D1: last chunk shorter than a tag
